@@ -25,7 +25,6 @@
 #define MAXE 3
 #define MAXR 3                    /* filler + 2 user requests */
 #define T0 1700000000ULL
-#define CLK_E3R2_T 1
 
 /* =================================================================================================== part (a) */
 enum { O_VALID = 0, O_STATUS, O_ERRPDU, O_TIMEOUT, O_CONNFAIL, O_CACHEFULL, O_N };
@@ -546,8 +545,10 @@ static void part_a(void) {
 			for (e = 0; e < nE; e++) { out[e] = c % O_N; c /= O_N; nm[e] = OCH[out[e]]; }
 			nm[nE] = 0;
 			/* number of clock jumps per history (timeouts are in addition exercised by the drain from every state) */
-			int clk = (nE <= 2 && !(nE == 2 && nR == 2)) ? 9 : VF_THOROUGH ? (nE == 3 && nR == 2 ? CLK_E3R2_T : 9) : (nE == 3 && nR == 2 ? 0 : 1);
-			if (getenv("C15_CLK")) clk = atoi(getenv("C15_CLK"));
+			int clk = 9, silent = 0;
+			for (e = 0; e < nE; e++) silent += out[e] > O_ERRPDU;
+			if ((nE == 2 && nR == 2) || (nE == 3 && nR == 1)) clk = VF_THOROUGH ? 9 : 1;
+			if (nE == 3 && nR == 2) { if (!VF_THOROUGH) continue; clk = silent ? 1 : 0; }
 			max_len = 40;            /* history length bound after the fixed prefix (never reached: the reachable state space is finite) */
 			if (!vf_case_begin("ha:e%d:r%d:%s:clk%d", nE, nR, nm, clk)) continue;
 			a_case(nE, nR, out, max_states, max_len, clk);
